@@ -150,6 +150,20 @@ def run_case(rng, tier, case):
                     vl = None if not isinstance(out, dict) else float(np.asarray(out['summary'].loc['value']).ravel()[0])
                     ok = (vf is None) == (vl is None) and (vf is None or abs(vf - vl) <= 2e-4 * (1 + abs(vf)))
                     case.check('json.run_from_json_equals_direct', ok, direct=vf, from_json=vl, own_grid=own_grid)
+                    if own_grid and rng.random() < 0.6:
+                        # "for any prices and grid": the saved portfolio carries its own grid, the caller passes ANOTHER one
+                        prg2 = {k: np.asarray(v, float) for k, v in pr2.items()}
+                        try:
+                            f2 = build(spec)
+                            r2_ = f2.portfolio.setup_optim_problem(dict(prg2), build_timegrid(g2)).optimize()
+                            v2 = None if isinstance(r2_, str) else float(r2_.value)
+                        except Exception:
+                            v2 = 'rejected'
+                        if v2 != 'rejected':
+                            out2 = ser.run_from_json(json_str=s_port, prices=dict(prg2), timegrid=build_timegrid(g2))
+                            vl2 = None if not isinstance(out2, dict) else float(np.asarray(out2['summary'].loc['value']).ravel()[0])
+                            ok2 = (v2 is None) == (vl2 is None) and (v2 is None or abs(v2 - vl2) <= 2e-4 * (1 + abs(v2)))
+                            case.check('json.run_from_json_equals_direct', ok2, direct=v2, from_json=vl2, own_grid=own_grid, other_grid_given=True)
                 except Exception as e:
                     case.check('json.run_from_json_equals_direct', False, error='%s: %s' % (type(e).__name__, str(e)[:160]), own_grid=own_grid)
                 try:
